@@ -648,9 +648,11 @@ func (e *Explorer) assert(c *smt.Term, label string) {
 	}
 	nc := smt.Not(c)
 	var m smt.Model
+	src := "solver"
 	for i, ev := range e.evals {
 		if ev.Bool(nc) {
 			m = e.completeModel(e.Models[i])
+			src = fmt.Sprintf("cache[%d/%d] raw=%v", i, len(e.evals), e.Models[i])
 			break
 		}
 	}
@@ -670,12 +672,43 @@ func (e *Explorer) assert(c *smt.Term, label string) {
 		}
 		m = mm
 	}
-	// sanity: the model must satisfy the whole path condition
+	// the model must satisfy the whole path condition; one completed from a sliced query with no live
+	// model at hand may not: ask for an assignment of the whole path condition then
 	ev := smt.NewEvaluator(m)
+	okAll := ev.Bool(nc)
+	for _, p := range e.PC {
+		if !ev.Bool(p) {
+			okAll = false
+			break
+		}
+	}
+	if !okAll {
+		e.PC = append(e.PC, nc)
+		r, mm := e.checkAll()
+		e.PC = e.PC[:len(e.PC)-1]
+		switch r {
+		case smt.Sat:
+			m = mm
+			ev = smt.NewEvaluator(m)
+		case smt.Unsat:
+			e.res.Status = "engine-error"
+			e.res.Detail = "assertion " + label + ": sliced query satisfiable but the whole path condition is not"
+			return
+		default:
+			e.res.Status = "solver-unknown"
+			e.res.Detail = "assertion " + label + ": solver returned unknown for the whole path condition"
+			e.push(c)
+			return
+		}
+	}
 	for _, p := range e.PC {
 		if !ev.Bool(p) {
 			e.res.Status = "engine-error"
-			e.res.Detail = "model for violated assertion " + label + " does not satisfy the path condition"
+			ps := p.String()
+			if len(ps) > 300 {
+				ps = ps[:300]
+			}
+			e.res.Detail = "model for violated assertion " + label + " does not satisfy the path condition conjunct " + ps + " src=" + src + fmt.Sprintf(" model=%v", m)
 			return
 		}
 	}
